@@ -43,12 +43,24 @@ func (w *brainRange) Send(*proto.StreamRangeResponse) error { return nil }
 
 type etcdWatch struct {
 	stream
-	reqs []*etcdserverpb.WatchRequest
+	reqs      []*etcdserverpb.WatchRequest
+	nsent     int
+	failAfter int // Send fails once more than this many responses were sent (-1: never)
 }
 
-func (w *etcdWatch) Send(*etcdserverpb.WatchResponse) error { return nil }
+func (w *etcdWatch) Send(*etcdserverpb.WatchResponse) error {
+	w.nsent++
+	if w.failAfter >= 0 && w.nsent > w.failAfter {
+		return io.ErrClosedPipe // the client's connection broke
+	}
+	return nil
+}
+
+// Recv hands out the queued requests; then it blocks, as a real stream does, until the client
+// goes away.
 func (w *etcdWatch) Recv() (*etcdserverpb.WatchRequest, error) {
 	if len(w.reqs) == 0 {
+		<-w.ctx.Done()
 		return nil, io.EOF
 	}
 	r := w.reqs[0]
@@ -174,10 +186,28 @@ func (w *world) request(tag string) {
 		if zzverif.Choose(tag+".goneBefore", 2) == 1 {
 			cancel() // the client is gone before its watch is registered
 		}
-		ws := &etcdWatch{stream: stream{wctx}, reqs: []*etcdserverpb.WatchRequest{{RequestUnion: &etcdserverpb.WatchRequest_CreateRequest{
-			CreateRequest: &etcdserverpb.WatchCreateRequest{Key: k, RangeEnd: key(tag + ".end"), StartRevision: rev}}}}}
+		create := &etcdserverpb.WatchRequest{RequestUnion: &etcdserverpb.WatchRequest_CreateRequest{
+			CreateRequest: &etcdserverpb.WatchCreateRequest{Key: k, RangeEnd: key(tag + ".end"), StartRevision: rev}}}
+		ws := &etcdWatch{stream: stream{wctx}, reqs: []*etcdserverpb.WatchRequest{create}, failAfter: -1}
+		variants := 1
+		if zzverif.Param("watchvariants", 1) == 1 {
+			ws.failAfter = zzverif.Choose(tag+".sendFails", 3) - 1
+			variants = 3
+		}
+		switch zzverif.Choose(tag+".stream", variants) {
+		case 1: // the client cancels a watch id (its own or any other number)
+			ws.reqs = append(ws.reqs, &etcdserverpb.WatchRequest{RequestUnion: &etcdserverpb.WatchRequest_CancelRequest{
+				CancelRequest: &etcdserverpb.WatchCancelRequest{WatchId: zzverif.I64(tag + ".cancelId")}}})
+		case 2: // a request type the shim does not support comes first
+			ws.reqs = append([]*etcdserverpb.WatchRequest{{RequestUnion: &etcdserverpb.WatchRequest_ProgressRequest{ProgressRequest: &etcdserverpb.WatchProgressRequest{}}}}, ws.reqs...)
+		}
 		go func() { w.es.Watch(ws) }()
 		zzverif.WaitIdle()
+		if zzverif.Choose(tag+".traffic", 2) == 1 {
+			// a write under the watched key while the stream is open
+			w.bs.Create(ctx, &proto.CreateRequest{Key: append(append([]byte(nil), k...), 'x'), Value: []byte("v")})
+			zzverif.WaitIdle()
+		}
 		cancel()
 		zzverif.WaitIdle()
 	}
@@ -188,7 +218,19 @@ func (w *world) request(tag string) {
 func VerifC20NoCrash() {
 	m := prometheus.NewMetrics()
 	// the production stack: the engine behind the storage metrics wrapper (cmd/option)
-	st := smetrics.NewKvStorage(zzmodel.NewStore(), m)
+	cs := zzmodel.NewStore()
+	if zzverif.Param("iterfault", 0) == 1 && zzverif.Choose("engineFault", 2) == 1 {
+		// one transient engine fault in the middle of some scan of the request
+		fired := false
+		cs.IterFault = func(start []byte, n int) bool {
+			if fired || n != 0 {
+				return false
+			}
+			fired = true
+			return true
+		}
+	}
+	st := smetrics.NewKvStorage(cs, m)
 	be := backend.NewBackend(st, backend.Config{Prefix: "/r", EnableEtcdCompatibility: true, WatchCacheSize: 4}, m)
 	be.SetCurrentRevision(5)
 	peers := &zzsrv.Peers{Leader: true}
@@ -204,6 +246,11 @@ func VerifC20NoCrash() {
 		zzverif.WaitIdle()
 	}
 	peers.Leader = true
+	cs.IterFault = nil // the engine is healthy again
+	if zzverif.Param("ticks", 0) == 1 {
+		zzverif.FireTickers() // the periodic compaction loop of the native API server runs once
+		zzverif.WaitIdle()
+	}
 	// the node keeps serving: a create followed by a get on a fresh key works
 	// ... and a new watch is registered and sees that create
 	fresh := []byte("/r/fresh")
